@@ -1135,5 +1135,21 @@ func (w *World) SnapshotFiles() map[string][]byte {
 	for p, s := range w.files {
 		out[p] = append([]byte(nil), s.data...)
 	}
+	// whatever else the engine keeps under data/ (a file the write hooks know
+	// nothing of - a marker, a side file) belongs to the image as it is on disk
+	filepath.Walk("data", func(p string, info os.FileInfo, err error) error {
+		if err != nil || info.IsDir() {
+			return nil
+		}
+		p = filepath.ToSlash(p)
+		if _, tracked := out[p]; tracked {
+			return nil
+		}
+		if b, err := os.ReadFile(p); err == nil {
+			out[p] = b
+			w.count("image_untracked_file")
+		}
+		return nil
+	})
 	return out
 }
